@@ -121,3 +121,26 @@ Definition metric_field (f : gfunc) : option string :=
 Theorem tie_evict_metrics :
   metric_field fn_shardedMap_evictMostExpired = Some "i.E" /\ metric_field fn_shardedMap_evictLeastCounter = Some "i.C".
 Proof. split; reflexivity. Qed.
+
+(* ---- which eviction function a backend installs: evictMostExpired, unless the strategy is not EvictMostExpired,
+   then evictLeastCounter (whose metric is the usage counter PrepareRead maintains: last-served stamp for LRU, serve
+   count for LFU) ---- *)
+Fixpoint strategy_selection (l : list gstmt) : option (string * string * bool) :=
+  match l with
+  | GAssign [GId ev] [GLeaf dflt] ::
+    GIf [] (GBin "!=" (GLeaf "cfg.EvictionStrategy") (GInt 0)) [GAssign [GId ev'] [GLeaf alt]] [] ::
+    GAssign [GLeaf "c.t"] [GCall _ [GId "cfg"; GFunc opts]] :: _ =>
+      Some (dflt, alt,
+            String.eqb ev ev' &&
+            existsb (fun s => match s with GAssign [GLeaf "t.Evict"] [GId ev''] => String.eqb ev ev'' | _ => false end) opts &&
+            existsb (fun s => match s with GAssign [GLeaf "t.DeleteExpired"] [GLeaf "c.deleteExpired"] => true | _ => false end) opts &&
+            existsb (fun s => match s with GAssign [GLeaf "t.Len"] [GLeaf "c.Len"] => true | _ => false end) opts)
+  | _ :: r => strategy_selection r
+  | [] => None
+  end.
+
+Theorem tie_strategy_selection :
+  strategy_selection (gf_body fn_NewShardedMap) = Some ("c.evictMostExpired", "c.evictLeastCounter", true) /\
+  strategy_selection (gf_body fn_NewSyncMap) = Some ("c.evictMostExpired", "c.evictLeastCounter", true) /\
+  strategy_selection (gf_body fn_NewShardedMapOf) = Some ("c.evictMostExpired", "c.evictLeastCounter", true).
+Proof. repeat split; reflexivity. Qed.
